@@ -80,6 +80,29 @@ def colliding_names_disjunctive(order):
     return pr
 
 
+def repeated_conditional_assignment(same_value):
+    """two conditional effects of one action assign one fluent under different conditions -- the same value (the variant selecting both only
+    repeats an assignment) or different values (the variant selecting both conflicts)"""
+    pr = Problem("repeated_conditional_assignment_" + ("same" if same_value else "different"))
+    power, sw, sw2, lit = (Fluent(n, BoolType()) for n in ("power", "sw", "sw2", "lit"))
+    pr.add_fluent(power, default_initial_value=True)
+    pr.add_fluent(sw, default_initial_value=False)
+    pr.add_fluent(sw2, default_initial_value=False)
+    pr.add_fluent(lit, default_initial_value=False)
+    light = InstantaneousAction("light")
+    light.add_precondition(power)
+    light.add_effect(lit, True, sw)
+    light.add_effect(lit, True if same_value else False, sw2)
+    light.add_effect(power, False)
+    for nm, f in (("press", sw), ("press2", sw2)):
+        a = InstantaneousAction(nm)
+        a.add_effect(f, True)
+        pr.add_action(a)
+    pr.add_action(light)
+    pr.add_goal(And(lit, Not(power)))
+    return pr
+
+
 def separator_names():
     """object / parameter names containing the separator used when grounded names are joined"""
     pr = Problem("separator_names")
@@ -196,6 +219,9 @@ def crafted_cases():
     for order in (("tick", "tick_0", "tick_1", "tick_0_0"), ("tick_0_0", "tick_1", "tick_0", "tick"), ("tick_0", "tick", "tick_0_0", "tick_1")):
         out.append(("crafted:colliding_names_disjunctive", (CK.DISJUNCTIVE_CONDITIONS_REMOVING,), colliding_names_disjunctive(order)))
         out.append(("crafted:colliding_names_disjunctive+grounding", (CK.DISJUNCTIVE_CONDITIONS_REMOVING, CK.GROUNDING), colliding_names_disjunctive(order)))
+    for same in (True, False):
+        out.append(("crafted:repeated_conditional_assignment", (CK.CONDITIONAL_EFFECTS_REMOVING,), repeated_conditional_assignment(same)))
+        out.append(("crafted:repeated_conditional_assignment+grounding", (CK.CONDITIONAL_EFFECTS_REMOVING, CK.GROUNDING), repeated_conditional_assignment(same)))
     for k in ("always", "sometime", "at_most_once", "sometime_before", "sometime_after"):
         out.append(("crafted:trajectory_" + k, (CK.TRAJECTORY_CONSTRAINTS_REMOVING,), trajectory(k)))
     for k in ("always+sometime", "sometime+always", "always+at_most_once", "always+sometime_after", "always+sometime+sometime", "always+always+sometime"):
